@@ -582,6 +582,8 @@ func propC13(c *Ctx) {
 	}
 
 	ruleEvalInherit(c, rInh, roles)
+	rra := c.Rule("reset-always", "the evaluator's symbol table is emptied on every path before the disabled and shadowed names are inherited (a builtin resolved in an earlier evaluation is cached in the table and would be found before the disabled set is consulted)", 1)
+	ruleResetAlways(c, rra, roles)
 	rsm := c.Rule("set-monotone", "the disabled set of an existing symbol table only grows: the whole set is assigned only while it is still nil or on a brand-new table", 2)
 	ruleSetMonotone(c, rsm, roles)
 }
